@@ -84,8 +84,8 @@ fn run(prop: &str, tier: &str, seed: u64) -> i32 {
         }
         "C20" => {
             let (mut chk, agg) = m_rules::run_parts(prop, tier, seed);
-            chk.rule.push_str(" || Binary level: `position fen F moves ...; show` for generated games, output parsed the same way.");
-            with_part(chk, agg, "C20show", tier, seed, &[("shows checked through the binary", "shows_checked", 200)])
+            chk.rule.push_str(" || Binary level: `position (fen F|startpos) [moves ...]; show` for generated games, bare positions and short records, half of them sent right after another `position` command (bare FEN, bare start or another game) on the same process; output parsed the same way.");
+            with_part(chk, agg, "C20show", tier, seed, &[("shows checked through the binary", "shows_checked", 200), ("shows sent right after another position command", "shows_after_another_position_command", 50), ("shows in startpos form", "shows_in_startpos_form", 20)])
         }
         "C03" => m_undo::run(tier, seed),
         "C06" | "C18" => {
@@ -172,6 +172,7 @@ fn replay(prop: &str, case: &Value, out: &mut par::Out) {
         ("C19", _) => m_uci::replay_c19(case, out),
         ("C06" | "C07" | "C10" | "C18", "session") => m_uci::replay_ucisample(prop, case, out),
         ("C08", "session") => m_uci::replay_session(prop, case, out),
+        ("C20", "show") => m_uci::replay_c20show(case, out),
         (p, _) if WALK.contains(&p) || p == "C12" || p == "C20" => m_rules::replay(p, case, out),
         ("C03", _) => m_undo::replay(case, out),
         ("C06" | "C18", _) => m_search::replay_hist(prop, case, out),
@@ -255,6 +256,7 @@ fn replay(prop: &str, case: &Value, out: &mut par::Out) {
         ("C14", _) => m_uci::replay_session(prop, case, out),
         ("C13", _) => m_uci::replay_c13(case, out),
         ("C19", _) => m_uci::replay_c19(case, out),
+        ("C20", "show") => m_uci::replay_c20show(case, out),
         ("C06" | "C07" | "C10" | "C18", "session") => m_uci::replay_ucisample(prop, case, out),
         ("C08", "session") => m_uci::replay_session(prop, case, out),
         _ => println!("this witness needs the in-process harness, which does not build against the current engine sources"),
